@@ -7,7 +7,7 @@ _MON_COQ = ["Routine/ProofsMonInv.v", "Routine/ProofsMonObs.v", "Routine/ProofsM
 _RULE = ("implementation-driven random gate-level histories of RoutineContainer and StateRoutineContainer (SetContext/SetRoutine/"
          "SetState/SwapValue/SetStateRoutine/RestartRoutine, instances stepped through their first select, user-function returns "
          "with nil/Canceled/error, bookkeeping sections, fake-clock advances and retry-timer callbacks, WaitExited callers with "
-         "cancellation and error channels) + corpus; distinct = distinct event sequence; non-trivial = >= 10 events")
+         "cancellation and error channels, root contexts cancelled by their owner) + corpus; distinct = distinct event sequence; non-trivial = >= 10 events")
 
 
 def _parse(ev, o):
@@ -53,9 +53,9 @@ _TRUSTED_BACKOFF = [
     "membership in the jitter interval, with 1 + cur/2^48 ns slack for float rounding, is checked), time.Now/Sub inside the synctest bubble",
 ]
 _TRUSTED = SCHED_TRUSTED + [
-    "modelled, not verified: time.AfterFunc/Stop (armed/fired/stopped/ran), context.WithCancel (an instance's context is cancelled only by its cancel function: root contexts are never cancelled from outside while installed), the scripted back-off passed through WithBackoff",
+    "modelled, not verified: time.AfterFunc/Stop (armed/fired/stopped/ran), context.WithCancel (an instance's context is cancelled by its cancel function, or together with the root context it derives from when the owner cancels that root: event 18), the scripted back-off passed through WithBackoff",
 ]
-_ASSUME = ["root contexts are not cancelled from outside while installed (the model has no such event)",
+_ASSUME = ["root contexts are cancelled only by their owner (event 18); a cancelled root context stays cancelled",
            "the harness realises the eager schedule for blocked instances and WaitExited callers; the theorems cover every placement of the wake-ups",
            "exit callbacks only log (they run inside the bookkeeping section)"]
 
@@ -72,7 +72,7 @@ PROPS = {
                          "code's violations (D2, D3) are _refuted theorems and corpus histories. Model tied to the code by scheduled differential "
                          "correspondence; the monitors (<=1 instance in user code; closed waitReturn => earlier instances returned) run on the "
                          "implementation's observations.",
-                    note=NOTE + "Root contexts are never cancelled from outside in the model. Gate placement trusted.",
+                    note=NOTE + "Root contexts may be cancelled by their owner (event 18). Gate placement trusted.",
                     technique=_TECH)),
     "C05": dict(pid=5, coq=_COQ + ["Routine/ProofsC05.v", "Routine/Props_C05.v"] + ["Routine/ProofsC14.v", "Routine/ProofsC14b.v"] + _MON_COQ, props_file="Routine/Props_C05.v", models=_MODELS, trusted=_TRUSTED, assumptions=_ASSUME,
                 meta=dict(
